@@ -17,7 +17,7 @@ check('C31', title='Timer events fire no earlier than scheduled and in due order
            'Callbacks record (event, virtual time, global sequence). Checked per execution: every run is at or after its due time (schedule() call + delay; for a repeat: previous run + interval); when a callback '
            'runs, no other event pending at that moment has an earlier due time (ties either way); a one-shot event runs at most once, a repeating event never runs again after its callback returned false; no event '
            'whose schedule() had returned before clear() was called runs after that clear() returned; an event still pending when stop() is called was due less than 2 granules before (bounded reading of '
-           '"pending events run"); the execution ends (no deadlock, livelock, crash, sanitizer report, thread left behind).',
+           '"pending events run"); the execution ends (no deadlock, livelock, crash, sanitizer report, thread left behind). Part tsan repeats the schedules of the short scripts under ThreadSanitizer (the timer\'s queue is shared between the caller and the timer thread and must only be touched under its lock).',
       level_note='quick: all 3 616 scripts of length <= 3 at preemption bound 2 (plus the default schedule of every script of length <= 2 under ASan with a freshly created timer thread per execution); thorough: all 54 241 scripts of '
                  'length <= 4 at bound 3 and all 759 375 scripts of length 5 at bound 1 (ASan: length <= 2 at bound 1; a thread creation under ASan costs 10-20 ms here, hence the small ASan parts). Every bound named is run to completion (exhaustive:true) unless the '
                  'evidence says otherwise. Delays are 1, 2, 5 ms of the property\'s 1-200 ms; one caller thread; callbacks take no virtual time; timeToWait = 0 (documented as ignored) is not in the space.',
@@ -28,5 +28,7 @@ check('C31', title='Timer events fire no earlier than scheduled and in due order
       parts=[dict(name='main', harness='c31_timer', variant='schedp', inproc=True,
                   quick=dict(args=['maxlen=3', 'bound=2'], deadline=60), thorough=dict(args=['maxlen=4', 'bound=3'], deadline=420)),
              dict(name='len5', harness='c31_timer', variant='schedp', inproc=True, thorough_only=True, thorough=dict(args=['minlen=5', 'maxlen=5', 'bound=1'], deadline=400)),
+             dict(name='tsan', harness='c31_timer', variant='tsan', inproc=True,
+                  quick=dict(args=['maxlen=2', 'bound=1'], deadline=90), thorough=dict(args=['maxlen=3', 'bound=2'], deadline=500)),
              dict(name='asan', harness='c31_timer', variant='sched', inproc=True,
                   quick=dict(args=['maxlen=2', 'bound=0'], deadline=60, shards=4), thorough=dict(args=['maxlen=2', 'bound=1'], deadline=300))])
